@@ -36,7 +36,9 @@ func RunInit(args []string, opts GlobalOptions) error {
 	if err := os.MkdirAll(target, 0755); err != nil {
 		return err
 	}
-	plansPath := filepath.Join(target, plansFileName)
+	// An existing store may still use the legacy events.jsonl: creating an empty plans.jsonl next
+	// to it would make every command read the empty file and hide the whole plan.
+	plansPath := getEventsPath(target)
 	lockPath := filepath.Join(target, "lock")
 	if err := ensureFileExists(plansPath, 0644); err != nil {
 		return err
